@@ -53,12 +53,17 @@ def solve_points(n, edges, rng, tries=60):
 WITH_H = [False]
 
 
+CYS_POS = [1]      # index of the cysteine in its tripeptide (0 / 2: the bridged residue is a chain terminus)
+
+
 def chain_at(sg_target, away_from, chain, start, rng, icode=""):
-    """ALA-CYS-ALA moved rigidly: SG at sg_target, the body of the chain pointing away from `away_from`"""
+    """ALA-CYS-ALA (or CYS-ALA-ALA / ALA-ALA-CYS) moved rigidly: SG at sg_target, the body of the chain pointing away from `away_from`"""
     # (with insertion codes the pieces carry no OXT, so that pdb2pqr keeps them in one chain under one identifier)
-    at = gen.peptide(["ALA", "CYS", "ALA"], chain=chain, start=start, icodes={0: icode, 1: icode, 2: icode} if icode else None,
+    seq3 = ["ALA", "ALA", "ALA"]
+    seq3[CYS_POS[0]] = "CYS"
+    at = gen.peptide(seq3, chain=chain, start=start, icodes={0: icode, 1: icode, 2: icode} if icode else None,
                      oxt=not icode, hydrogens=WITH_H[0])
-    sg = next(a["xyz"] for a in at if a["name"] == "SG" and a["res_index"] == 1)
+    sg = next(a["xyz"] for a in at if a["name"] == "SG" and a["res_index"] == CYS_POS[0])
     cen = sum(a["xyz"] for a in at) / len(at)
     v_from = cen - sg
     v_to = np.array(sg_target) - np.array(away_from)
@@ -207,15 +212,34 @@ def run(ctx):
         for oi, order in enumerate(orders):
             same = (gi + oi) % 3 == 0
             WITH_H[0] = (gi + oi) % 4 == 2          # a quarter of the inputs carry their hydrogens (HG on every cysteine)
+            # a third of the structures have the cysteines at the N- or C-terminal end of their chains (not with insertion codes,
+            # where the pieces form one chain)
+            CYS_POS[0] = 1 if (gi + oi) % 5 == 1 else [1, 0, 2, 1, 1, 1][(gi + 2 * oi) % 6]
             text = build(pts, order, same, rng, icodes=(gi + oi) % 5 == 1)
+            cpos = CYS_POS[0]
             WITH_H[0] = False
+            CYS_POS[0] = 1
             extra = [[], ["--nodebump"], ["--noopt"], ["--nodebump", "--noopt"], ["--drop-water"]][(gi + 2 * oi) % 5]
             deco = ["plain", "ssbond-subset", "cym", "ssbond-all", "ssbond-subset+cym", "ssbond-relabelled"][(gi + 3 * oi + ctx.seed) % 6]
             ff = ffs[(gi + oi) % 6]
             if "cym" in deco and ff in ("PEOEPB", "CHARMM"):
                 ff = "AMBER"
-            jobs.append({"text": decorate(text, deco, rng), "args": [f"--ff={ff}"] + extra,
-                         "what": f"graph n={n} {g['close']} order={order} same_chain={same} icodes={(gi + oi) % 5 == 1} opts={extra} input={deco}"})
+            if ff == "PARSE":
+                # the termini may be neutral: the state name of a terminal bridged cysteine still has to be the bridged one
+                extra = extra + [[], ["--neutraln"], ["--neutralc"], ["--neutraln", "--neutralc"]][(gi + oi) % 4]
+            jobs.append({"text": decorate(text, deco, rng), "args": [f"--ff={ff}"] + extra, "plain_names": "cym" not in deco,
+                         "what": f"graph n={n} {g['close']} order={order} same_chain={same} icodes={(gi + oi) % 5 == 1} cys_at={cpos} opts={extra} input={deco}"})
+    # a bridged pair whose cysteines end their chains, under PARSE with charged and with neutral termini
+    for n_, g_ in [(n, g) for n, g in graphs if n == 2 and g["close"]][:1]:
+        pts = solve_points(n_, g_["close"], rng)
+        if pts is not None:
+            for cpos, optsets in ((0, ([], ["--neutraln"], ["--neutraln", "--neutralc"])), (2, ([], ["--neutralc"], ["--neutraln", "--neutralc"]))):
+                for extra in optsets:
+                    CYS_POS[0] = cpos
+                    text = build(pts, [0, 1], False, rng)
+                    CYS_POS[0] = 1
+                    jobs.append({"text": text, "args": ["--ff=PARSE"] + extra, "plain_names": True,
+                                 "what": f"graph n=2 {g_['close']} cysteines at chain end {cpos} opts={extra} input=plain"})
     # axis-parallel pairs around the limit, across grid lines
     dists = [2.0, 2.04, 2.3, 2.45, 2.499, 2.5, 2.501, 2.6]
     starts = [-0.01, 0.0, 0.55, 1.5, 1.98, 1.99, 4.97, -2.01]
@@ -240,6 +264,12 @@ def run(ctx):
         sg, close, dd = relation_from_text(j["text"])
         if any(abs(x - LIMIT) < 5e-4 and x != LIMIT for x in dd):
             continue     # too close to the limit to classify after rounding
+        if not o["ok"] and j.get("plain_names"):
+            # complete peptides with cysteines under their plain name: without a result neither partner has bridged-cysteine
+            # parameters (inputs naming thiolates CYM may be refused by a force field that lacks the state: drift)
+            ctx.violation({"clause": "BridgedPairParameterised", "exc": o["exc"], "nclose": len(close)},
+                          f"{j['what']}: run failed with {o['exc']} {o['msg']}", {"what": j["what"], "text": j["text"]})
+            continue
         if not o["ok"]:
             failed += 1
             if len(ctx.drift) < 10:
